@@ -1,0 +1,9 @@
+//go:build verif
+
+package core
+
+// VerifSynchronizable exposes Entry.synchronizable for verification harnesses.
+// It only exists when the verif build tag is set.
+func (e *Entry) VerifSynchronizable() *Entry {
+	return e.synchronizable()
+}
